@@ -472,13 +472,25 @@ def modelStmt (ver : Version) (mn : MNum) (st : MSt) (s : Stmt) : String × MSt 
               | some (.ok (r, mF)) => (s!"{r.written}/{r.err}/{encAccepted r.accepted}{after}", { st with memo := mF })
               | some (.error p) => (p.tag, unknownMemo st)
               | none => ("?", unknownMemo st))
-           | _ =>
-             (match printRun ver { w := faultWriter mode k } maxDigits ps fs with
-              | .ok r => (s!"{r.written}/{r.err}/{encAccepted r.accepted}{after}", unknownMemo st)
-              | .error p => (p.tag, unknownMemo st)))
+           | some (.h12 v) =>
+             -- v1/v2: pull iterators with one digit of look-ahead
+             (match fprintFault12 ver c st.memo { w := faultWriter mode k } ps v ranges with
+              | some (.ok (r, mF)) => (s!"{r.written}/{r.err}/{encAccepted r.accepted}{after}", { st with memo := mF })
+              | some (.error p) => (p.tag, unknownMemo st)
+              | none => ("?", unknownMemo st))
+           | none => ("?", unknownMemo st))
         | _ =>
           (match printRun ver reliableSink maxDigits ps fs with
-           | .ok r => (hexOf r.accepted, if isV3 then { st with memo := m' } else unknownMemo st)
+           | .ok r =>
+             (hexOf r.accepted,
+              if isV3 then { st with memo := m' }
+              else match (st.handles[h]? : Option MH) with
+                | some (.h12 v) =>
+                  -- the requests of the pull iterators (a reliable sink never stops them early)
+                  (match rangesFault12 c st.memo (newPrinter ver reliableSink maxDigits ps) v ranges with
+                   | some (.ok (mF, _)) => { st with memo := mF }
+                   | _ => unknownMemo st)
+                | _ => unknownMemo st)
            | .error p => (p.tag, unknownMemo st))
   | .wr h o | .fwr h o _ _ =>
     match (st.handles[h]? : Option MH) with
